@@ -50,6 +50,10 @@ def jobs(tier):
     for large in (False, True):
         for i in range(8):
             js.append(dict(kind="label", large=large, tcase=i))
+    # the same pair asked first at the other text size, then at this one, in one process (a label must not remember an earlier query)
+    for large in (False, True):
+        for i in range(8):
+            js.append(dict(kind="label", large=large, tcase=i, first=(not large)))
     return js
 
 
@@ -134,6 +138,9 @@ def run_job(job):
             t = eng.rgb_var("t")
             b = eng.rgb_var("b")
             _case_assume(eng, t, job["tcase"])
+            if "first" in job:
+                contrast.get_wcag_level(t, b, job["first"])
+                colors.ColorPair(t, b, job["first"]).is_readable
             lvl = contrast.get_wcag_level(t, b, large)
             pair = colors.ColorPair(t, b, large)
             lab = pair.is_readable
@@ -208,6 +215,9 @@ def replay_label(inp):
     t, b = _rgb(inp, "t"), _rgb(inp, "b")
     large = bool(inp["_job"]["large"])
     want = ref.wcag_label(ref.wcag_ratio(t, b), large)
+    if "first" in inp["_job"]:
+        get_wcag_level(t, b, bool(inp["_job"]["first"]))
+        ColorPair(t, b, bool(inp["_job"]["first"])).is_readable
     got = get_wcag_level(t, b, large)
     pair = ColorPair(t, b, large)
     lab = pair.is_readable
